@@ -120,7 +120,7 @@ def k2_shapes(tier, rnd):
 
 def k2_definitions(tier, seed):
     rnd = random.Random(seed * 7919 + 13)
-    defs = []
+    defs = list(fixtures())
     for sh in k2_shapes(tier, rnd):
         defs.append(smgen.gen_wellformed(rnd, sh))
     # sync/async twins for C15: the same definition with the async flag flipped
@@ -668,4 +668,68 @@ def ambiguous_mutants(rnd, d):
     for g, lv in mi_under.items():
         if leaf in lv:
             add([('from', [g]), ('to', tgt)], 'ambiguous_via_superstate')
+    return out
+
+
+# ---------------------------------------------------------------- fixed fixtures (always part of the K2 corpus, whatever the seed)
+# Each one packs shapes that a specific kind of defect needs in order to manifest (see seeded/*/meta.json).
+
+def _tr(src, to, **hooks):
+    t = [('from', list(src)), ('to', to)]
+    for k, v in hooks.items():
+        t.append(('list', k, list(v)))
+    return ('transition', t)
+
+
+def _ev(name, *body, payload=None, **hooks):
+    es = []
+    if payload:
+        es.append(('payload', payload))
+    for k, v in hooks.items():
+        es.append(('list', k, list(v)))
+    es.extend(body)
+    return (name, es)
+
+
+def fixtures():
+    out = []
+    for (is_async, concrete) in [(False, False), (True, True), (True, False), (False, True)]:
+        tag = ('a' if is_async else 's') + ('c' if concrete else 'g')
+        forest = [
+            ('leaf', 'Idle', 'D0'),
+            ('super', 'Outer', None, [
+                ('super', 'Inner', None, [('leaf', 'InFlight', 'D1'), ('leaf', 'Slow', None), ('initial', 'Slow')]),
+                ('leaf', 'Cooldown', 'D2'),
+                ('super', 'Deep', None, [('super', 'Deeper', None, [('leaf', 'X1', None)]), ('leaf', 'Zed', None)]),
+            ]),
+            ('leaf', 'Done', None),
+        ]
+        pl = 'P'
+        evs = [
+            # superstate target without initial whose first entry is a nested superstate; multi-source with
+            # transition-level conditions; hooks of every kind at both levels; payload
+            _ev('start', _tr(['Idle', 'Done'], 'Outer', guards=['gt1'], unless=['ut1'], before=['bt1'], after=['at1'], around=['wt1']),
+                payload=pl, guards=['ge1', 'ge2'], unless=['ue1'], before=['be1'], after=['ae1'], around=['we1']),
+            # outer superstate as a source from deep leaves; two transitions, hooks only on the first
+            _ev('stop', _tr(['Inner'], 'Idle', guards=['gs1'], after=['as1']), _tr(['Cooldown', 'Deep'], 'Done')),
+            # self-loops on data states, directly and through a superstate source
+            _ev('tick', _tr(['Inner'], 'InFlight', unless=['uk1']), _tr(['Idle'], 'Idle', before=['bk1'], around=['wk1'], unless=['uk2'])),
+            # a second event between the same pair of states as `stop`
+            _ev('time_out', _tr(['Cooldown'], 'Done'), _tr(['Slow'], 'Idle')),
+            # event name with a digit-led word and single letters
+            _ev('go_2_x', _tr(['Outer'], 'Deep', around=['wg1', 'wg2']), payload=pl, guards=['gg2', 'gg1']),
+            _ev('enable_2fa', _tr(['Done'], 'Inner')),
+        ]
+        d = [('name', 'M'), ('initial', 'Idle')]
+        if concrete:
+            d.append(('context', 'Ctx'))
+        if is_async:
+            d.append(('async', True))
+        d.append(('dynamic', True))
+        d.append(('states', forest))
+        d.append(('events', evs))
+        out.append(d)
+    # typestate-only twin of the first fixture
+    d0 = [en for en in out[0] if en[0] != 'dynamic']
+    out.append(d0)
     return out
